@@ -21,33 +21,40 @@ structure Inv (s : S) : Prop where
   inflightUsed : ∀ x ∈ s.inflight, x ∈ s.used
   /-- every recorded tag whose `consume()` returned has a callback -/
   hasCallback : ∀ x ∈ s.tags, (s.callbacks.lookup x).isSome ∨ ∃ t cb, s.cur = some (.consuming t x cb 3)
+  /-- whoever is inside consume()/cancel() holds the channel lock -/
+  curLocked : s.cur ≠ none → s.lock.isSome
+  /-- every tag the broker ever confirmed has its callback stored, or its consume() is still in progress -/
+  usedCallback : ∀ x ∈ s.used, (s.callbacks.lookup x).isSome ∨ ∃ t cb ph, s.cur = some (.consuming t x cb ph)
 
 theorem inv_init : Inv {} :=
   ⟨fun x => by simp [adding], fun x h => by simp, fun x h => by simp at h, fun x h => by simp at h,
-   fun x h => by simp at h⟩
+   fun x h => by simp at h, fun h => by simp at h, fun x h => by simp at h⟩
 
 theorem step_inv (s s' : S) (a : Act) (h : Inv s) (hs : step s a = some s') : Inv s' := by
-  obtain ⟨hA, hE, hB, hI, hG⟩ := h
+  obtain ⟨hA, hE, hB, hI, hG, hL, hU⟩ := h
   cases a with
   | acquire t =>
     simp only [step] at hs
     split at hs
-    · cases hs; exact ⟨hA, hE, hB, hI, hG⟩
+    · cases hs; exact ⟨hA, hE, hB, hI, hG, fun _ => rfl, hU⟩
     · cases hs
   | release t =>
     simp only [step] at hs
     split at hs
-    · cases hs; exact ⟨hA, hE, hB, hI, hG⟩
+    · rename_i hc; cases hs
+      exact ⟨hA, hE, hB, hI, hG, fun hn => absurd hc.2 hn, hU⟩
     · cases hs
   | dispatch tag =>
     simp only [step] at hs
-    cases hs; exact ⟨hA, hE, hB, hI, hG⟩
+    split at hs
+    · cases hs
+    · cases hs; exact ⟨hA, hE, hB, hI, hG, hL, hU⟩
   | consumeRpc t tag cb =>
     simp only [step] at hs
     split at hs
     · rename_i hc; cases hs
-      obtain ⟨_, hcur, hfresh⟩ := hc
-      refine ⟨?_, ?_, ?_, ?_, ?_⟩
+      obtain ⟨hlk, hcur, hfresh⟩ := hc
+      refine ⟨?_, ?_, ?_, ?_, ?_, fun _ => by simp [hlk], ?_⟩
       · intro x
         simp only [List.mem_append, List.mem_singleton, adding, removing, Option.some.injEq, Cur.consuming.injEq,
           reduceCtorEq, exists_false, not_false_eq_true, and_true]
@@ -74,6 +81,13 @@ theorem step_inv (s s' : S) (a : Act) (h : Inv s) (hs : step s a = some s') : In
         rcases hG x hx with h1 | ⟨t', cb', h2⟩
         · left; exact h1
         · rw [hcur] at h2; cases h2
+      · intro x hx
+        simp only [List.mem_append, List.mem_singleton] at hx
+        rcases hx with hx | rfl
+        · rcases hU x hx with h1 | ⟨t', cb', ph, h2⟩
+          · left; exact h1
+          · rw [hcur] at h2; cases h2
+        · right; exact ⟨t, cb, 2, rfl⟩
     · cases hs
   | consumeAdd t =>
     simp only [step] at hs
@@ -84,7 +98,7 @@ theorem step_inv (s s' : S) (a : Act) (h : Inv s) (hs : step s a = some s') : In
         have hadd : adding s tag := ⟨t', cb, hcur⟩
         have hnin : tag ∉ s.inflight := hE tag hadd
         have hbr : tag ∈ s.broker := (hA tag).mpr (Or.inr hadd)
-        refine ⟨?_, ?_, hB, hI, ?_⟩
+        refine ⟨?_, ?_, hB, hI, ?_, fun _ => hL (by simp [hcur]), ?_⟩
         · intro x
           have hx := hA x
           simp only [adding, removing, hcur, Option.some.injEq, Cur.consuming.injEq, reduceCtorEq, exists_false,
@@ -124,6 +138,12 @@ theorem step_inv (s s' : S) (a : Act) (h : Inv s) (hs : step s a = some s') : In
             rcases hG x this with h1 | ⟨t2, cb2, h2⟩
             · left; exact h1
             · rw [hcur] at h2; simp at h2
+        · intro x hx
+          rcases hU x hx with h1 | ⟨t2, cb2, ph, h2⟩
+          · left; exact h1
+          · rw [hcur] at h2
+            simp only [Option.some.injEq, Cur.consuming.injEq] at h2
+            right; exact ⟨t', cb, 3, by rw [h2.2.1]⟩
       · cases hs
     all_goals cases hs
   | consumeStore t =>
@@ -132,7 +152,7 @@ theorem step_inv (s s' : S) (a : Act) (h : Inv s) (hs : step s a = some s') : In
     · rename_i t' tag cb hcur
       split at hs
       · rename_i htt; subst htt; cases hs
-        refine ⟨?_, ?_, hB, hI, ?_⟩
+        refine ⟨?_, ?_, hB, hI, ?_, fun hn => absurd rfl hn, ?_⟩
         · intro x
           have hx := hA x
           simp only [adding, removing, hcur, Option.some.injEq, Cur.consuming.injEq, reduceCtorEq, exists_false,
@@ -155,14 +175,23 @@ theorem step_inv (s s' : S) (a : Act) (h : Inv s) (hs : step s a = some s') : In
               simp only [List.lookup_cons, this]; exact h1
             · rw [hcur] at h2; simp only [Option.some.injEq, Cur.consuming.injEq] at h2
               exact absurd h2.2.1.symm hxt
+        · intro x hx
+          by_cases hxt : x = tag
+          · subst hxt; left; simp [List.lookup_cons]
+          · rcases hU x hx with h1 | ⟨t2, cb2, ph, h2⟩
+            · left
+              have : (x == tag) = false := by simp [hxt]
+              simp only [List.lookup_cons, this]; exact h1
+            · rw [hcur] at h2; simp only [Option.some.injEq, Cur.consuming.injEq] at h2
+              exact absurd h2.2.1.symm hxt
       · cases hs
     all_goals cases hs
   | cancelRpc t tag =>
     simp only [step] at hs
     split at hs
     · rename_i hc; cases hs
-      obtain ⟨_, hcur⟩ := hc
-      refine ⟨?_, ?_, ?_, hI, ?_⟩
+      obtain ⟨hlk, hcur⟩ := hc
+      refine ⟨?_, ?_, ?_, hI, ?_, fun _ => by simp [hlk], ?_⟩
       · intro x
         have hx := hA x
         simp only [adding, removing, hcur, reduceCtorEq, exists_false, not_false_eq_true, and_true, or_false] at hx
@@ -180,6 +209,10 @@ theorem step_inv (s s' : S) (a : Act) (h : Inv s) (hs : step s a = some s') : In
         rcases hG x hx with h1 | ⟨t2, cb2, h2⟩
         · left; exact h1
         · rw [hcur] at h2; cases h2
+      · intro x hx
+        rcases hU x hx with h1 | ⟨t2, cb2, ph, h2⟩
+        · left; exact h1
+        · rw [hcur] at h2; cases h2
     · cases hs
   | cancelRemove t =>
     simp only [step] at hs
@@ -193,7 +226,7 @@ theorem step_inv (s s' : S) (a : Act) (h : Inv s) (hs : step s a = some s') : In
           rcases (hA tag).mp hb with ⟨_, _, h3⟩ | ⟨_, _, h4⟩
           · exact h3 hrem
           · rw [hcur] at h4; cases h4
-        refine ⟨?_, ?_, hB, hI, ?_⟩
+        refine ⟨?_, ?_, hB, hI, ?_, fun hn => absurd rfl hn, ?_⟩
         · intro x
           have hx := hA x
           simp only [adding, removing, hcur, Option.some.injEq, Cur.cancelling.injEq, reduceCtorEq, exists_false,
@@ -217,6 +250,10 @@ theorem step_inv (s s' : S) (a : Act) (h : Inv s) (hs : step s a = some s') : In
           rcases hG x hx' with h1 | ⟨t2, cb2, h2⟩
           · left; exact h1
           · rw [hcur] at h2; cases h2
+        · intro x hx
+          rcases hU x hx with h1 | ⟨t2, cb2, ph, h2⟩
+          · left; exact h1
+          · rw [hcur] at h2; cases h2
       · cases hs
     all_goals cases hs
   | brokerCancel tag =>
@@ -225,7 +262,7 @@ theorem step_inv (s s' : S) (a : Act) (h : Inv s) (hs : step s a = some s') : In
     · rename_i hc; cases hs
       obtain ⟨hin, hnadd'⟩ := hc
       have hnadd := isAdding_false _ _ hnadd'
-      refine ⟨?_, ?_, ?_, ?_, hG⟩
+      refine ⟨?_, ?_, ?_, ?_, hG, hL, hU⟩
       · intro x
         have hx := hA x
         simp only [List.mem_filter, List.mem_append, List.mem_singleton, adding, removing, decide_eq_true_eq] at hx ⊢
@@ -268,7 +305,7 @@ theorem step_inv (s s' : S) (a : Act) (h : Inv s) (hs : step s a = some s') : In
         rcases (hA y).mp hb with ⟨_, h2, _⟩ | h4
         · exact h2 (by simp [hinf])
         · exact hnadd h4
-      refine ⟨?_, ?_, hB, ?_, ?_⟩
+      refine ⟨?_, ?_, hB, ?_, ?_, hL, hU⟩
       · intro x
         have hx := hA x
         simp only [List.mem_filter, adding, removing, decide_eq_true_eq] at hx ⊢
@@ -331,6 +368,11 @@ theorem stop_cancels_all_quiescent (as : List Act) (s : S) (hr : run {} as = som
   · have := stop_cancels_all as s hr hempty x (by simp [hb])
     simp [adding, hcur] at this
 
+/-- the source really has the shape the theorem above speaks about: `stop_consuming` keeps cancelling
+    until it sees no consumer recorded and never clears the list of an open channel -/
+theorem stop_shape : Gen.Close.stopRepeatsUntilEmpty = true ∧ Gen.Close.stopIteratesCopy = true ∧
+    Gen.Close.dispatchWaitsForLock = true := by decide
+
 /-- the copy-based cancel loop of `stop_consuming` covers every tag it saw (C11 `stop_cancels_all`) -/
 theorem stop_loop_covers (tags : List String) : Close.stopConsuming tags = tags := by
   simp [Close.stopConsuming, (by decide : Gen.Close.stopIteratesCopy = true)]
@@ -383,16 +425,26 @@ theorem broker_cancel_removes (s s1 s2 : S) (tag : String) (hq : s.inflight = []
     simp
   · cases h1
 
-/-- Full statement of "deliveries for a tag are dispatched to the callback registered for it". -/
-def DispatchAlwaysFindsCallback : Prop :=
-  ∀ (as : List Act) (s : S), run {} as = some s → ∀ p ∈ s.dispatched, p.1 ∈ s.used → p.2.isSome
+/-- **Every delivery for a consumer the broker confirmed is dispatched to a callback**, also when it
+    overtakes the `consume()` call that created the consumer: the look-up then waits for the channel
+    lock, which `consume()` holds until the callback is stored (regenerated: `dispatchWaitsForLock`). -/
+theorem dispatch_always_finds_callback (as : List Act) (s s' : S) (hr : run {} as = some s) (tag : String)
+    (hu : tag ∈ s.used) (hs : step s (.dispatch tag) = some s') : (s.callbacks.lookup tag).isSome := by
+  have hinv := run_inv as {} s inv_init hr
+  rcases hinv.usedCallback tag hu with h | ⟨t, cb, ph, hcur⟩
+  · exact h
+  · have hl := hinv.curLocked (by simp [hcur])
+    simp only [step, (by decide : Gen.Close.dispatchWaitsForLock = true), true_and] at hs
+    split at hs
+    · cases hs
+    · rename_i hn
+      rcases hlook : s.callbacks.lookup tag with _ | v
+      · exact absurd ⟨by simp [hlook], hl⟩ hn
+      · rfl
 
-/-- It is false of the code: a delivery for a freshly confirmed consumer can be dispatched by the
-    consuming thread before the adding thread has stored the callback (KeyError; recorded finding). -/
-theorem dispatch_before_callback_stored : ¬ DispatchAlwaysFindsCallback := by
-  intro h
-  have := h [.acquire 1, .consumeRpc 1 "a" 7, .consumeAdd 1, .dispatch "a"] _ rfl ("a", none) (by decide) (by decide)
-  simp at this
+/-- the same delivery does block while `consume()` is between ConsumeOk and storing the callback -/
+example : (run {} [.acquire 1, .consumeRpc 1 "a" 7, .consumeAdd 1]).bind (fun s => step s (.dispatch "a")) = none := by
+  decide
 
 /-- What the assumption on the broker excludes: if the broker's cancel notification is processed
     before `consume()` recorded the tag, the client keeps a consumer the broker no longer has. -/
@@ -422,16 +474,18 @@ theorem skel_Basic__consume_add_and_get_tag : Gen.Skel.Basic__consume_add_and_ge
   ["call:_channel.add_consumer_tag", "return"] := by decide
 
 theorem skel_Channel_stop_consuming : Gen.Skel.Channel_stop_consuming =
-  ["if", "r:consumer_tags", "then", "return", "endif", "if", "r:is_closed", "then", "for",
-    "r:consumer_tags", "do", "call:basic.cancel", "endfor", "endif", "call:remove_consumer_tag"] := by decide
+  ["if", "r:consumer_tags", "then", "return", "endif", "if", "r:is_closed", "then",
+    "call:remove_consumer_tag", "return", "endif", "while", "r:consumer_tags", "do", "for",
+    "r:consumer_tags", "do", "call:basic.cancel", "endfor", "endwhile"] := by decide
 
 theorem skel_Channel__basic_cancel : Gen.Skel.Channel__basic_cancel =
   ["call:remove_consumer_tag"] := by decide
 
 theorem skel_Channel_process_data_events : Gen.Skel.Channel_process_data_events =
   ["if", "r:_consumer_callbacks", "then", "raise:AMQPChannelError", "endif", "for",
-    "call:build_inbound_messages", "do", "if", "then", "r:_consumer_callbacks",
-    "call:message.to_tuple", "continue", "endif", "r:_consumer_callbacks", "endfor"] := by decide
+    "call:build_inbound_messages", "do", "if", "r:_consumer_callbacks", "then", "acq:lock",
+    "rel:lock", "endif", "if", "then", "r:_consumer_callbacks", "call:message.to_tuple",
+    "continue", "endif", "r:_consumer_callbacks", "endfor"] := by decide
 
 theorem skel_Channel_start_consuming : Gen.Skel.Channel_start_consuming =
   ["while", "r:is_closed", "do", "call:process_data_events", "if", "r:consumer_tags", "then",
